@@ -33,6 +33,10 @@ func Dump(p *Prog, what string) {
 	case "ext":
 		dumpExtCalls(p)
 	default:
+		if len(what) > 6 && what[:6] == "loops:" {
+			DumpLoops(p, what[6:])
+			return
+		}
 		if len(what) > 7 && what[:7] == "params:" {
 			DumpParams(p, what[7:])
 			return
@@ -82,4 +86,24 @@ func DumpParams(p *Prog, name string) {
 	fn := p.Fn(name)
 	s := a.sum[fn]
 	fmt.Println("paramNonNil", s.paramNonNil, "paramIntLo", s.paramIntLo, "paramLenLo", s.paramLenLo, "paramFields", s.paramFields)
+}
+
+func DumpLoops(p *Prog, name string) {
+	fn := p.Fn(name)
+	pf := progressFns(p)
+	for _, li := range loopsOf(fn) {
+		c, why := classifyLoop(p, fn, li, pf)
+		fmt.Println(blockPos(p, li.header), loopDesc(li), "class=", c, why)
+		for _, ins := range li.header.Instrs {
+			if ph, ok := ins.(*ssa.Phi); ok {
+				fmt.Println("   phi", ph.Name(), ph.Comment, "monotone=", monotone(ph, li), ph.String())
+			}
+			if iff, ok := ins.(*ssa.If); ok {
+				fmt.Println("   if", iff.Cond.String())
+				if bo, ok := iff.Cond.(*ssa.BinOp); ok {
+					fmt.Println("   invariant X", loopInvariant(bo.X, li, fn, p), "Y", loopInvariant(bo.Y, li, fn, p))
+				}
+			}
+		}
+	}
 }
